@@ -1,7 +1,8 @@
 (* Executable model of the export pipeline of daemon/src/event/export.rs
    (process_nlri_change and everything it calls), of the inbound loop checks
-   (is_as_loop in export.rs, the ORIGINATOR_ID / CLUSTER_LIST test at the top of
-   PeerSession::rx_update in event/mod.rs) and of the AS_PATH edits of
+   (is_as_loop in export.rs, applied by the route extraction of PeerSession::rx_msg;
+   the ORIGINATOR_ID / CLUSTER_LIST test at the top of PeerSession::rx_update in
+   event/mod.rs) and of the AS_PATH edits of
    packet/src/bgp.rs (as_path_prepend, as_path_prepend_confed,
    as_path_strip_confed, as_path_count).  No proofs in this file.
 
@@ -402,8 +403,8 @@ Definition rr_loop_drop (attrs : list attr) (local_rid : N) (cid : option N) : b
     end in
   originator_loop || cluster_loop.
 
-(* what the receive path does with one reach UPDATE (run_select: is_as_loop
-   => skipped; rx_update: RR loop => dropped; else the attributes handed to
+(* what the receive path does with one reach UPDATE (rx_msg: is_as_loop => the
+   routes are ignored, the message still reaches the FSM; rx_update: RR loop => dropped; else the attributes handed to
    insert_route, with LOCAL_PREF defaulted on iBGP sessions) *)
 Definition rx_reach (x : ectx) (local_rid : N) (cid : option N) (attrs : list attr)
   : res (option (list attr)) :=
